@@ -73,7 +73,9 @@ w("numeric-snapshot-relative", ["C07", "C03"], "C07.abs/(*column.numericColumn[T
   ("column_numeric.go", "c.write(dst, chunk.Min()+x, data[x])", "c.write(dst, x, data[x])"), suite="survives")
 w("string-apply-absolute-index", ["C01"], "C01.units/(*column.columnString).Apply", "absolute offset indexes a per-block array",
   ("column_strings.go", "\t// Update the values of the column, for this one we can only process stores\n\tfor r.Next() {\n\t\toffset := r.Offset - int32(from)", "\t// Update the values of the column, for this one we can only process stores\n\tfor r.Next() {\n\t\t_ = from\n\t\toffset := r.Offset"))
-w("writestate-relative-inserts", ["C07", "C08"], "C07.abs/(*column.Collection).writeState$1$1$1", "insert markers written with relative offsets",
+w("writestate-relative-inserts", ["C07"], "C07.abs/(*column.Collection).writeState$1$1$1", "insert markers written with relative offsets",
+  ("snapshot.go", "buffer.PutOperation(commit.Insert, offset+idx)", "buffer.PutOperation(commit.Insert, idx+offset-offset)"))
+w("writestate-relative-inserts-c08", ["C08"], "C08.units/(*column.Collection).writeState$1$1$1", "insert markers written with relative offsets",
   ("snapshot.go", "buffer.PutOperation(commit.Insert, offset+idx)", "buffer.PutOperation(commit.Insert, idx+offset-offset)"))
 w("range-relative-cursor", ["C04"], "C04.units/(*column.Txn).Range$1$1", "cursor set to the block-relative offset",
   ("txn.go", "\t\t\ttxn.cursor = offset + x\n\t\t\tfn(offset + x)", "\t\t\t_ = offset\n\t\t\ttxn.cursor = x\n\t\t\tfn(x)"))
